@@ -63,6 +63,36 @@ facts = c07_facts.facts
 
 EPS = 2.0 ** -52
 U64 = 2 ** 64 - 1
+# USER_HZ values of the scripted kernels (audit item 3: the ∀ tck of every parse theorem was exercised at the host's
+# value only, which was moreover fed to BOTH sides): CONFIG_HZ-style values, a power of two, and 1
+TCK_POOL = [100, 100, 250, 1000, 1024, 300, 1]
+AT_CLKTCK = 17
+
+
+def kernel_user_hz():
+    """USER_HZ as the KERNEL hands it to every process in the ELF auxiliary vector (AT_CLKTCK) — read without
+    going through os.sysconf, which is what psutil uses."""
+    try:
+        import ctypes
+        lib = ctypes.CDLL(None, use_errno=True)
+        lib.getauxval.restype = ctypes.c_ulong
+        lib.getauxval.argtypes = [ctypes.c_ulong]
+        v = int(lib.getauxval(AT_CLKTCK))
+        if v > 0:
+            return v, "getauxval(AT_CLKTCK)"
+    except Exception:  # noqa: BLE001
+        pass
+    try:
+        with open("/proc/self/auxv", "rb") as f:
+            raw = f.read()
+        import struct
+        for k in range(0, len(raw) - 15, 16):
+            a, v = struct.unpack("QQ", raw[k:k + 16])
+            if a == AT_CLKTCK and v > 0:
+                return int(v), "/proc/self/auxv"
+    except Exception:  # noqa: BLE001
+        pass
+    return None, "unavailable"
 
 
 # ------------------------------------------------------------------------------ implementation side
@@ -102,7 +132,10 @@ class Impl:
     def __init__(self, ctx):
         self.ps = ctx.psutil
         self.plat = self.ps._psplatform
+        self.host_tck = self.plat.CLOCK_TICKS          # what the module computed at import (restored by close)
         self.tck = int(self.plat.CLOCK_TICKS)
+        self.events = []
+        self.feed_by_sleep = False
         self.fp = fakeproc.FakeProc(self.ps)
         self.statpath = "%s/stat" % self.fp.root
         self.feed = None
@@ -117,7 +150,18 @@ class Impl:
         self.vlen = None
         self.host_fields = tuple(self.plat.scputimes._fields)
 
+    def set_tck(self, tck):
+        """USER_HZ of the scripted kernel: `_pslinux.CLOCK_TICKS` is patched from outside to the value the scenario
+        (and the model) uses — a divisor the code took from anywhere else (a literal 100 …) shows as a difference."""
+        self.tck = int(tck)
+        self.plat.CLOCK_TICKS = int(tck)
+
+    def pick_tck(self, rng):
+        self.set_tck(rng.choice(TCK_POOL))
+        return self.tck
+
     def close(self):
+        self.plat.CLOCK_TICKS = self.host_tck
         self.plat.open_binary = self.orig_open_binary
         _time.sleep = self.orig_sleep
         self.ps._timer = self.orig_timer
@@ -140,8 +184,12 @@ class Impl:
         if path == self.statpath:
             t = threading.get_ident()
             self.reads_by_thread[t] = self.reads_by_thread.get(t, 0) + 1
+            self.events.append("R")
         if path == self.statpath and self.feed is not None:
-            data = self.feed[min(self.feed_i, len(self.feed) - 1)] if self.feed else b""
+            # a BLOCKING call sees the second snapshot only after it has really called time.sleep: what the file
+            # holds is a function of (scripted) time, not of how many times it was opened
+            k = sum(1 for e in self.events if e != "R") if self.feed_by_sleep else self.feed_i
+            data = self.feed[min(k, len(self.feed) - 1)] if self.feed else b""
             self.feed_i += 1
             with open(self.statpath, "wb") as f:
                 f.write(data)
@@ -196,8 +244,14 @@ class Impl:
 
         def run():
             self.feed, self.feed_i = reads, 0
+            self.events = ev = []
+            self.feed_by_sleep = interval is not None and interval > 0
             slept = []
-            _time.sleep = lambda s: slept.append(s)
+
+            def sleep(s_):
+                slept.append(s_)
+                ev.append(["S", s_ if isinstance(s_, (int, float)) and not isinstance(s_, bool) else repr(s_)])
+            _time.sleep = sleep
             try:
                 try:
                     r = fn(interval=interval, percpu=op["percpu"])
@@ -205,6 +259,7 @@ class Impl:
                     _time.sleep = self.orig_sleep
                     n = self.feed_i
                     self.feed = None
+                    self.feed_by_sleep = False
                 if op["percpu"]:
                     if op["fn"] == "percent":
                         val = {"k": "nums", "v": [float(x) for x in r]}
@@ -214,10 +269,10 @@ class Impl:
                     val = {"k": "num", "v": float(r)}
                 else:
                     val = {"k": "tup", "v": [float(x) for x in r]}
-                return {"kind": "ok", "nreads": n, "val": val, "slept": len(slept),
-                        "types_ok": _types_ok(r)}
+                return {"kind": "ok", "nreads": n, "val": val, "slept": len(slept), "events": list(ev),
+                        "interval_py": interval, "types_ok": _types_ok(r)}
             except Exception as e:  # noqa: BLE001 — every exception is an observable
-                return self._exc(e, {"nreads": n, "slept": len(slept)})
+                return self._exc(e, {"nreads": n, "slept": len(slept), "events": list(ev), "interval_py": interval})
 
         if on is not None:
             return on(run)
@@ -240,6 +295,12 @@ class Impl:
              "18446744073709551615"] + ["0"] * 27
         self.fp.write("%d/stat" % pid, " ".join(f) + "\n")
 
+    def remove_pstat(self, pid):
+        try:
+            os.unlink(os.path.join(self.fp.root, str(pid), "stat"))
+        except FileNotFoundError:
+            pass
+
     def pcall(self, objs, op):
         pid = op["pid"]
         timer = [float(Fraction(*t)) for t in op["timer"]]
@@ -247,23 +308,35 @@ class Impl:
         ncpu = op["ncpu"]
         self.plat.cpu_count_logical = lambda: ncpu
         ti = [0]
-
-        def timer_fn():
-            v = timer[min(ti[0], len(timer) - 1)]
-            ti[0] += 1
-            return v
-        self.ps._timer = timer_fn
-        self.write_pstat(pid, *times[0])
-        slept = []
-
-        def sleep(s):
-            slept.append(s)
-            if len(times) > 1:
-                self.write_pstat(pid, *times[1])
-        _time.sleep = sleep
         interval = op["interval"]
         if interval is not None:
             interval = float(Fraction(*interval))
+        blocking = interval is not None and interval > 0
+        slept = []
+        vanish = op.get("vanish")          # the process is gone at the k-th read of /proc/<pid>/stat of this call
+        self.set_tck(op["tck"])
+
+        def timer_fn():
+            # the clock is a function of (scripted) time: a blocking call reads the later value only after it slept
+            k = len(slept) if blocking else ti[0]
+            v = timer[min(k, len(timer) - 1)]
+            ti[0] += 1
+            return v
+        self.ps._timer = timer_fn
+        if vanish == 0:
+            self.remove_pstat(pid)
+        else:
+            self.write_pstat(pid, *times[0])
+
+        def sleep(s):
+            slept.append(s)
+            if vanish == 1:
+                self.remove_pstat(pid)
+            elif len(times) > 1:
+                self.write_pstat(pid, *times[1])
+        _time.sleep = sleep
+        extra = lambda: {"slept": len(slept), "timer_reads": ti[0], "interval_py": interval,
+                         "sleep_args": [x if isinstance(x, (int, float)) and not isinstance(x, bool) else repr(x) for x in slept]}
         try:
             try:
                 r = objs[op["obj"]].cpu_percent(interval=interval)
@@ -271,10 +344,9 @@ class Impl:
                 _time.sleep = self.orig_sleep
                 self.ps._timer = self.orig_timer
                 self.plat.cpu_count_logical = self.orig_cpu_count
-            return {"kind": "ok", "val": float(r), "slept": len(slept), "timer_reads": ti[0],
-                    "types_ok": isinstance(r, float)}
+            return dict({"kind": "ok", "val": float(r), "types_ok": isinstance(r, float)}, **extra())
         except Exception as e:  # noqa: BLE001
-            return self._exc(e, {"slept": len(slept), "timer_reads": ti[0]})
+            return self._exc(e, extra())
 
 
 def _types_ok(r):
@@ -435,7 +507,7 @@ def render_snapshot(vlen_cols, cpus_ticks, agg=None, other=(b"intr 5", b"btime 1
 
 
 CALL_FAMILIES = ["subsecond", "zero", "decreasing", "guest", "big", "threads", "hotplug", "malformed_read",
-                 "blocking", "mixed", "guest_only", "tie"]
+                 "blocking", "mixed", "guest_only", "tie", "exact_tie"]
 
 
 def evolve(rng, cur, family, tck):
@@ -461,6 +533,16 @@ def evolve(rng, cur, family, tck):
                 d[col] += v
                 rest -= v
             d[3] += rest
+        elif family == "exact_tie":
+            # total 16 s (16·tck ticks) split in whole seconds among user/system/idle/iowait(/steal): every share is
+            # j/16 of 100 = 6.25·j — for odd j EXACTLY on a x.x5 tie, and exactly representable in binary, as are all
+            # inputs (whole seconds) and intermediates: round(·, 1) has one right answer, the half-even one
+            rest = 16
+            for col in rng.sample([0, 2, 3, 4, 7], 5):
+                v = rng.randrange(0, rest + 1) if col != 3 else 0
+                d[col] += v * tck
+                rest -= v
+            d[3] += rest * tck
         elif family == "guest":
             g, gn = rng.randrange(0, 500), rng.randrange(0, 200)
             d = [g + rng.randrange(0, 300), gn + rng.randrange(0, 100), rng.randrange(0, 300), rng.randrange(0, 2000),
@@ -502,6 +584,8 @@ def gen_call_history(rng, impl, family):
     nthreads = rng.choice([1, 1, 2]) if family != "threads" else rng.choice([2, 3, 4])
     base = rng.choice([0, 1000, 10 ** 6, 10 ** 9])
     cur = [[base + rng.randrange(0, 1000) for _ in range(10)] for _ in range(ncpu)]
+    if family == "exact_tie":
+        cur = [[tck * rng.randrange(0, 10 ** 5) for _ in range(8)] + [0, 0] for _ in range(ncpu)]
     n_ops = rng.randrange(3, 9) if family != "threads" else rng.randrange(6, 14)
     ops = []
     fn_bias = rng.choice(["percent", "times_percent", None])
@@ -537,7 +621,10 @@ def gen_call_history(rng, impl, family):
         op = {"op": "call", "vlen": vlen, "tck": tck, "fn": fn, "tid": tid, "interval": interval,
               "percpu": percpu, "reads": reads}
         ops.append(op)
-    return {"kind": "hist", "family": family, "vlen": vlen, "ops": ops}
+    h = {"kind": "hist", "family": family, "vlen": vlen, "ops": ops}
+    if family == "exact_tie":
+        h["strict"] = True
+    return h
 
 
 def exhaustive_delta_histories(tck):
@@ -559,7 +646,7 @@ def exhaustive_delta_histories(tck):
                  "reads": [a, b]}]}
 
 
-PROC_FAMILIES = ["steady", "zero_dt", "objects", "blocking", "hotplug", "negative", "ncpu_odd"]
+PROC_FAMILIES = ["steady", "zero_dt", "objects", "blocking", "hotplug", "negative", "ncpu_odd", "exact_tie", "vanish"]
 
 
 def gen_proc_history(rng, impl, family):
@@ -571,6 +658,13 @@ def gen_proc_history(rng, impl, family):
     t = Fraction(rng.randrange(0, 2 ** 30), 1024)
     ut = {p: rng.randrange(0, 10 ** 6) for p in pids}
     st = {p: rng.randrange(0, 10 ** 6) for p in pids}
+    if family == "exact_tie":
+        # whole seconds everywhere, 16 s of wall time per step, j s of CPU: 100·j/16 = 6.25·j, for odd j exactly on a
+        # x.x5 tie and exactly representable (see the call-history family of the same name)
+        ncpu0 = rng.choice([1, 2, 4])
+        t = Fraction(rng.randrange(0, 2 ** 20))
+        ut = {p: tck * rng.randrange(0, 10 ** 4) for p in pids}
+        st = {p: tck * rng.randrange(0, 10 ** 4) for p in pids}
     ops = []
     for _ in range(rng.randrange(3, 9)):
         o = rng.randrange(nobj)
@@ -589,16 +683,29 @@ def gen_proc_history(rng, impl, family):
             ncpu = rng.choice([1, 2, 4, 8])
         timer, times = [], []
         for k in range(2):
-            if not (family == "zero_dt" and rng.random() < 0.4):
-                t += Fraction(rng.choice([1, 10, 256, 1024, 5000, 2 ** 20]), 1024)
-            grow = rng.choice([0, 0, 1, 5, 100, 3000])
-            ut[pid] += rng.randrange(0, grow + 1)
-            st[pid] += rng.randrange(0, grow + 1)
+            if family == "exact_tie":
+                t += 16
+                ut[pid] += tck * rng.choice([0, 1, 1, 3, 5, 7, 2, 9, 11, 13, 15, 4])
+                st[pid] += tck * rng.choice([0, 0, 0, 2, 16])
+            else:
+                if not (family == "zero_dt" and rng.random() < 0.4):
+                    t += Fraction(rng.choice([1, 10, 256, 1024, 5000, 2 ** 20]), 1024)
+                grow = rng.choice([0, 0, 1, 5, 100, 3000])
+                ut[pid] += rng.randrange(0, grow + 1)
+                st[pid] += rng.randrange(0, grow + 1)
             timer.append([t.numerator, t.denominator])
             times.append([ut[pid], st[pid]])
-        ops.append({"op": "pcall", "tck": tck, "obj": o, "pid": pid, "interval": interval, "ncpu": ncpu,
-                    "timer": timer, "times": times})
-    return {"kind": "phist", "family": family, "pids": pids, "objs": objs, "ops": ops}
+        op = {"op": "pcall", "tck": tck, "obj": o, "pid": pid, "interval": interval, "ncpu": ncpu,
+              "timer": timer, "times": times}
+        if family == "vanish" and rng.random() < 0.35:
+            # the process is gone at the k-th read of /proc/<pid>/stat of this call (a non-blocking call reads once:
+            # k = 1 is never reached there)
+            op["vanish"] = rng.choice([0, 1])
+        ops.append(op)
+    h = {"kind": "phist", "family": family, "pids": pids, "objs": objs, "ops": ops}
+    if family == "exact_tie":
+        h["strict"] = True
+    return h
 
 
 # ------------------------------------------------------------------------------ the token hypothesis, made explicit
@@ -700,7 +807,8 @@ def malformed_token_lines(rng, tck):
                     rows[{"first": 0, "cpu0": 1, "cpu1": 2}[where]][pos - 1] = tok
                     data = b"cpu  " + b" ".join(rows[0]) + b"\ncpu0 " + b" ".join(rows[1]) + b"\ncpu1 " + \
                         b" ".join(rows[2]) + b"\nintr 1 2 x\nbtime 17\n"
-                    lines.append({"op": "times", "vlen": vlen, "tck": tck, "data": data.hex()})
+                    lines.append({"op": "times", "vlen": vlen, "tck": tck if tck is not None else rng.choice(TCK_POOL),
+                                  "data": data.hex()})
                     nf = min(max(vlen, 7), 10)
                     tags.append("malformed_tok:%s:%s:%s" % (tok_class(tok), "converted" if pos <= nf else "beyond_nf",
                                                             "short_line" if ncols < nf else "full_line"))
@@ -771,6 +879,7 @@ def run_numbered(ctx, impl, res, lines, cmp, tokhyp=None):
             continue
         if impl.vlen != ln["vlen"]:
             impl.prime(ln["vlen"])
+        impl.set_tck(ln["tck"])
         impl.reset_last()
         im_t = impl.times(datas[1])["per"]
         if not same_times(im_t, m["times"]["spec"]):
@@ -818,7 +927,7 @@ def run_numbered(ctx, impl, res, lines, cmp, tokhyp=None):
     return bad
 
 
-def nbn_histories(rng, tck):
+def nbn_histories(rng, tcks):
     """Goal of seeded C07-3: on ONE thread, for all four (function, percpu) variants: a non-blocking call, a BLOCKING
     call during which the CPUs idle, then a non-blocking call after a fully busy second. The last call must be
     measured from the blocking call's post-sleep sample (C07_blocking_sample_is_remembered): 100 % busy, ONE read."""
@@ -828,6 +937,7 @@ def nbn_histories(rng, tck):
             for first in (True, False):
                 for iv in (None, [0, 1]):
                     ncpu = rng.choice([1, 2, 3])
+                    tck = rng.choice(tcks)
                     cur = [[rng.randrange(0, 1000) for _ in range(10)] for _ in range(ncpu)]
                     snaps = [render_snapshot(10, cur)]
 
@@ -863,6 +973,8 @@ def run_world(ctx, impl, res, lines, tags, cmp, tokhyp=None):
             raise RuntimeError("driver rejected %r: %s" % (ln, m))
         if impl.vlen != ln["vlen"]:
             flds = impl.prime(ln["vlen"])
+        impl.set_tck(ln["tck"])
+        res.count("tck:%d" % ln["tck"])
         if ln["op"] == "world":
             data = bytes.fromhex(m["data"])
             twin = render_snapshot(ln["ncols"], ln["cpus"], ln["total"], [bytes.fromhex(o) for o in ln["other"]])
@@ -974,6 +1086,17 @@ def compare_call(res, cmp, hist, idx, op, im, m, nf, tp_max_one, findings_on):
     if mo["kind"] != sp["kind"] or mo.get("exc") != sp.get("exc") or mo["nreads"] != sp["nreads"]:
         return dis("model", "Lean model and Lean spec disagree on the outcome kind")
     blocking = op["interval"] is not None and Fraction(*op["interval"]) > 0
+    if "events" in im:
+        # the externally visible events in ORDER: a blocking call samples, THEN sleeps exactly `interval`, THEN samples
+        # again (a failing first read ends it before the sleep); a non-blocking call never sleeps
+        n = sp["nreads"]
+        want_ev = (["R", ["S", im["interval_py"]], "R"][:1 if n < 2 else 3]) if blocking else ["R"] * n
+        if im["events"] != want_ev:
+            res.count("events:MISMATCH")
+            return dis("spec", "order/argument of the samples and of time.sleep differs: observed %s, the blocking form is "
+                               "sample, time.sleep(interval), sample (expected %s)" % (im["events"], want_ev))
+        res.count("events:%s" % ("blocking:R,S(interval),R" if blocking and n >= 2 else "blocking:first_read_failed" if blocking
+                                 else "nonblocking:%dR" % n))
     if im["kind"] == "exc":
         if im["slept"] != (1 if (blocking and im["nreads"] >= 2) else 0):
             return dis("spec", "time.sleep called %d times on a failing call" % im["slept"])
@@ -1044,6 +1167,19 @@ def compare_call(res, cmp, hist, idx, op, im, m, nf, tp_max_one, findings_on):
             res.count("entry:subsecond_tp")
         else:
             res.count("entry:tp" if is_tp else "entry:percent")
+        if hist.get("strict") and T.denominator == 1 and T.numerator & (T.numerator - 1) == 0:
+            # exact-tie family, elapsed total a power of two (in whole seconds): every input, every intermediate
+            # (busy/all, 100/all, delta·scale) and the exact result are binary fractions the doubles represent exactly,
+            # so round(x, 1) has ONE right answer — the half-even one of Spec.IsRound1
+            res.count("exact_tie:compared_strictly")
+            if (q * 20) % 2 == 1:
+                res.count("exact_tie:on_a_tie(x.x5)")
+            if not cmp.is_rounded(x, r):
+                return dis("spec", "exact tie: value %r is not the exact %s rounded half-even to one decimal (%s)"
+                           % (x, float(q), float(r)))
+            if mm != r:
+                return dis("model", "Lean model %s and Lean spec %s differ" % (mm, r))
+            continue
         if cmp.close(x, target, slack):
             if not cmp.is_rounded(x, r):
                 res.count("near_boundary")
@@ -1086,6 +1222,8 @@ def run_histories(ctx, impl, res, hists, cmp, findings_on=True, impl_results=Non
             if impl.vlen != h["vlen"]:
                 impl.prime(h["vlen"])
             impl.reset_last()
+            if h["ops"]:
+                impl.set_tck(h["ops"][0]["tck"])
         nf = min(max(h["vlen"], 7), 10)
         v = "ok"
         for idx, op in enumerate(h["ops"]):
@@ -1117,6 +1255,7 @@ def concurrent_runs(ctx, impl, res, cmp, runs):
         percpu = rng.random() < 0.4
         cur = [[rng.randrange(0, 1000) for _ in range(10)] for _ in range(rng.choice([1, 2, 4]))]
         impl.prime(vlen)
+        impl.pick_tck(rng)
         impl.reset_last()
         impl.feed = None
         ops, results = [], []
@@ -1199,11 +1338,20 @@ def compare_pcall(res, cmp, hist, idx, op, im, m, ncpu_changed, dt, scale_delta=
         return dis(kind, "outcome kind/exception class differs")
     blocking = op["interval"] is not None and Fraction(*op["interval"]) > 0
     if im["kind"] == "exc":
+        if im["exc"] == "NoSuchProcess":
+            # the process vanished at the read before (0) or after (1) the sleep: the clock was read just before it
+            late = blocking and op.get("vanish") == 1
+            res.count("pentry:vanished:%s" % ("after_the_sleep" if late else "before_any_sleep"))
+            if im["slept"] != (1 if late else 0) or im["timer_reads"] != (2 if late else 1):
+                return dis(kind, "vanished process: slept %d, timer read %d times" % (im["slept"], im["timer_reads"]))
+            return "ok"
         if im["slept"] or im["timer_reads"]:
             return dis(kind, "negative interval had effects before raising")
         return "ok"
     if im["slept"] != (1 if blocking else 0) or im["timer_reads"] != (2 if blocking else 1):
         return dis(kind, "sleep/timer use differs: slept %d, timer read %d times" % (im["slept"], im["timer_reads"]))
+    if "sleep_args" in im and im["sleep_args"] != ([im["interval_py"]] if blocking else []):
+        return dis(kind, "time.sleep called with %s, the interval is %r" % (im["sleep_args"], im["interval_py"]))
     if not im["types_ok"]:
         return dis(kind, "result is not a float")
     x = im["val"]
@@ -1243,6 +1391,12 @@ def compare_pcall(res, cmp, hist, idx, op, im, m, ncpu_changed, dt, scale_delta=
     if slack > 1e-9:
         res.count("float_slack>1e-9")
     res.count("pentry:zero" if q == 0 else "pentry:value")
+    if hist.get("strict") and dt is not None and dt > 0 and dt.denominator == 1 and dt.numerator & (dt.numerator - 1) == 0:
+        res.count("exact_tie:compared_strictly")
+        if (q * 20) % 2 == 1:
+            res.count("exact_tie:on_a_tie(x.x5)")
+        if not cmp.is_rounded(x, r):
+            return dis("spec", "exact tie: value %r is not the exact %s rounded half-even to one decimal (%s)" % (x, float(q), float(r)))
     if not cmp.close(x, q, slack):
         return dis("spec", "value %r differs from 100*cpu/wall = %s (rounded %s)" % (x, float(q), float(r)))
     if not cmp.is_rounded(x, r):
@@ -1291,7 +1445,8 @@ def run_proc_histories(ctx, impl, res, hists, cmp, findings_on=None):
             dt = (ws[1] - ws[0]) if blocking else ((ws[0] - last_w[op["obj"]]) if op["obj"] in last_w else None)
             im = impl.pcall(objs, op)
             v = compare_pcall(res, cmp, h, idx, op, im, m, changed, dt, scale_delta, findings_on)
-            if not neg:
+            vanished = op.get("vanish") == 0 or (blocking and op.get("vanish") == 1)
+            if not neg and not vanished:
                 last_n[op["obj"]] = n_now
                 last_w[op["obj"]] = ws[1] if blocking else ws[0]
         verdicts.append(v)
@@ -1376,6 +1531,7 @@ def unclaimed_tokens(ctx, impl, res):
     toks = UNCLAIMED_TOKENS
     out = ctx.driver().batch([{"op": "tokens", "toks": [t.hex() for t in toks]}])[0]
     impl.prime(10)
+    impl.set_tck(impl.host_tck)
     for t, g in zip(toks, out["grammar"]):
         if g:
             res.disagree("model", {"kind": "tokens", "tok": t.decode()}, None, None, None,
@@ -1537,6 +1693,7 @@ def run_ident_reuse(ctx, impl, res, cmp, runs):
         vlen = rng.choice([7, 8, 10])
         nf = vlen
         impl.prime(vlen)
+        impl.pick_tck(rng)
         impl.reset_last()
         ncols = rng.randrange(vlen, 11)
         cur = [[rng.randrange(0, 1000) for _ in range(10)] for _ in range(rng.choice([1, 2]))]
@@ -1650,7 +1807,20 @@ def correspond(ctx, res):
                     "non-trivial = a world inside the specification's domain or a malformed file, a call history with a "
                     "non-zero delta, a Process history with ≥ 2 calls; distinct = distinct canonical inputs")
         res.extra["clock_ticks"] = impl.tck
+        res.extra["clock_ticks_pool"] = sorted(set(TCK_POOL))
         res.extra["host_scputimes_fields"] = list(impl.host_fields)
+        host = int(impl.host_tck)
+        # provenance of the divisor (audit item 3): what the module computed at import must be the kernel's USER_HZ as
+        # the kernel itself hands it to the process (AT_CLKTCK), not just "whatever psutil's constant is"
+        khz, how = kernel_user_hz()
+        res.count("clock_ticks_provenance:%s" % how)
+        if khz is not None and impl.host_tck != khz:
+            res.disagree("spec", {"kind": "clock_ticks"}, impl.host_tck, None, khz,
+                         note="_pslinux.CLOCK_TICKS after import is %r, the kernel's USER_HZ (%s) is %d: every counter would be "
+                              "divided by the wrong number of ticks per second" % (impl.host_tck, how, khz))
+        if isinstance(impl.host_tck, bool) or not isinstance(impl.host_tck, int):
+            res.disagree("spec", {"kind": "clock_ticks"}, repr(impl.host_tck), None, khz, note="_pslinux.CLOCK_TICKS is not an int")
+        res.case(("clock_ticks", host), nontrivial=khz is not None)
         total_lines = 0
         tokhyp = TokenHypothesis(res)
         phase_t = {}
@@ -1683,6 +1853,7 @@ def correspond(ctx, res):
         for i in range(nw):
             fam = ["plain", "plain", "many_cpus", "fewer_cols", "malformed"][i % 5]
             vlen = ctx.rng.choice([7, 8, 9, 10, 10, 3, 12])
+            impl.pick_tck(ctx.rng)
             w = gen_world(ctx.rng, impl, vlen, fam if fam != "malformed" else "plain")
             if fam == "malformed":
                 w2 = dict(w, ncols=max(w["ncols"], 7))
@@ -1693,12 +1864,13 @@ def correspond(ctx, res):
             else:
                 lines.append(w)
                 tags.append(fam)
+        impl.set_tck(host)
         live = live_validate(ctx, impl, res)
         if live is not None:
             lines.append(live)
             tags.append("live")
         # malformed-token stream, systematically (every position × foreign / leading-zero tokens × short lines)
-        ml, mt = malformed_token_lines(ctx.rng, impl.tck)
+        ml, mt = malformed_token_lines(ctx.rng, None)
         if ctx.tier == "quick":
             keep = sorted(ctx.rng.sample(range(len(ml)), min(len(ml), 150)))
             ml, mt = [ml[k] for k in keep], [mt[k] for k in keep]
@@ -1712,25 +1884,28 @@ def correspond(ctx, res):
         total_lines += len(lines)
         phase("worlds")
         # ---- (a') cpuN lines with their own numbers (offline CPUs are not printed)
-        nl_ = [gen_numbered(ctx.rng, impl, witness=True)] + [gen_numbered(ctx.rng, impl) for _ in range(ctx.n(80, 1500))]
+        nl_ = [gen_numbered(ctx.rng, impl, witness=True)] + \
+            [gen_numbered(ctx.rng, impl) for _ in range(ctx.n(80, 1500)) if impl.pick_tck(ctx.rng)]
         nl_.sort(key=lambda l: l["vlen"])
         run_numbered(ctx, impl, res, nl_, cmp, tokhyp)
         total_lines += len(nl_)
         phase("numbered")
         # ---- (b) call histories: corpus (L9 witness) first
-        hists = [l9_witness(impl.tck)]
+        impl.set_tck(host)
+        hists = [l9_witness(host)]
         nh = ctx.n(600, 12000)
         for i in range(nh):
+            impl.pick_tck(ctx.rng)
             hists.append(gen_call_history(ctx.rng, impl, CALL_FAMILIES[i % len(CALL_FAMILIES)]))
         n_sampled = len(hists)
-        hists.extend(exhaustive_delta_histories(impl.tck))
+        hists.extend(exhaustive_delta_histories(host))
         res.exhaustive += ("; all %d combinations of delta ∈ {-5,0,1,30,100} ticks on user/idle/iowait/steal × both "
                            "functions (blocking form)" % ((len(hists) - n_sampled) // 2))
         hists.sort(key=lambda h: h["vlen"])
         # non-blocking / blocking / non-blocking on one thread, all four (function, percpu) variants, with and without a
         # first call, interval None and 0.0: run FIRST so that a blocking branch that forgets its post-sleep sample is
         # reported on the shortest history that shows it (seeded C07-3)
-        nbn = nbn_histories(ctx.rng, impl.tck)
+        nbn = nbn_histories(ctx.rng, TCK_POOL)
         n_sampled += len(nbn)
         hists = nbn + hists
         CH = 400
@@ -1742,6 +1917,7 @@ def correspond(ctx, res):
                 feats = history_features(h, impl.tck)
                 for f in feats:
                     res.count("feature:" + f)
+                res.count("tck:%d" % h["ops"][0]["tck"])
                 res.count("calls", len(h["ops"]))
                 res.count("nf:%d" % min(max(h["vlen"], 7), 10))
                 res.case(h, nontrivial=h["family"] != "zero",
@@ -1754,6 +1930,7 @@ def correspond(ctx, res):
         res.extra["ident_reuse_runs"] = run_ident_reuse(ctx, impl, res, cmp, ctx.n(30, 600))
         phase("ident_reuse")
         # ---- (b') fresh imports: the module-level priming code runs for real in a child interpreter
+        impl.set_tck(host)          # the child interpreter computes CLOCK_TICKS itself
         ni = ctx.n(21, 280)
         ihists = [gen_import_case(ctx.rng, impl, IMPORT_FAMILIES[i % len(IMPORT_FAMILIES)]) for i in range(ni)]
         verdicts, nl = run_import_histories(ctx, impl, res, ihists, cmp)
@@ -1767,14 +1944,16 @@ def correspond(ctx, res):
         phase("fresh_import")
         # ---- (c) Process.cpu_percent histories
         np_ = ctx.n(400, 8000)
-        phists = [ncpu_witness(impl.tck)] + \
-            [gen_proc_history(ctx.rng, impl, PROC_FAMILIES[i % len(PROC_FAMILIES)]) for i in range(np_)]
+        impl.set_tck(host)
+        phists = [ncpu_witness(host)] + \
+            [gen_proc_history(ctx.rng, impl, PROC_FAMILIES[i % len(PROC_FAMILIES)]) for i in range(np_) if impl.pick_tck(ctx.rng)]
         for a in range(0, len(phists), 1000):
             chunk = phists[a:a + 1000]
             verdicts, nl = run_proc_histories(ctx, impl, res, chunk, cmp)
             total_lines += nl
             for h in chunk:
                 res.count("pfamily:" + h["family"])
+                res.count("tck:%d" % h["ops"][0]["tck"])
                 res.case(h, nontrivial=len(h["ops"]) >= 2,
                          sample={"family": h["family"], "objs": h["objs"], "first_op": h["ops"][0]}
                          if len(res.samples) < 6 and h["family"] == "objects" else None)
